@@ -89,10 +89,10 @@ TABLE["C12"] = {
     "level_note": "Trusted as for C02; the failing-install path (allocator) is C11's.",
 }
 TABLE["C17"] = {
-    "pipelines": [HIST_PIPE],
+    "pipelines": [HIST_PIPE, {"name": "panics", "cmd": ["panics"], "n_quick": 400, "n_thorough": 20000, "timeout": 900, "timeout_thorough": 3400, "own_keys_only": ["c17."]}],
     "fail_keys": ["c17."],
     "trusted_base": MACHINE_TB,
-    "rule": HIST_RULE + "; C17 predicate on the implementation: each installed trampoline and entry range is covered by a __clear_cache call whose snapshot equals the final bytes; for every restored byte the last covering flush already holds the final value",
+    "rule": HIST_RULE + "; C17 predicate on the implementation: each installed trampoline and entry range is covered by a __clear_cache call whose snapshot equals the final bytes; for every restored byte the last covering flush already holds the final value; plus (borrowed panic scripts, key c17.) installations attempted under a W^X policy (mprotect refuses W+X with EACCES, allows RW and RX): whatever bytes of the entry changed must be covered by a later flush request",
     "assumptions": ["__clear_cache interposition sees every call the library makes (Linux path)"],
     "level_text": "Theorem C17_covers: for every install history and either drop order the event log is flush-clean (at each return to the user no written byte is unflushed); per-operation versions for a single install and a single restore. Correspondence: the interposed __clear_cache records range and content at call time; the model must also predict the exact sequence of flush calls.",
     "level_note": "x86-64 has coherent instruction caches, so only the call discipline is observable here; macOS path (sys_icache_invalidate in patch_function only) is not modelled.",
